@@ -94,6 +94,42 @@ def run(ctx):
                           len(xs), si, r0["max"], r0["cache"], r0["nreads"], json.dumps([[m["code"], m["paylen"]] for m in r0["msgs"]]), r0["sigs"], r0["closed"]),
                       {"record": r0, "cmd": "bin/check C07 --tier %s" % ctx.tier})
 
+    # signalling (Signal.tla): every history of <= 5 events on the design, generated histories on a real connection - conformance only
+    rs_ = vf.run_tlc(ctx, "tcp", "MC_Signal", "MC_Signal.cfg", workers=8, timeout=900, cont=False)
+    vf.tlc_must_finish(rs_, "MC_Signal")
+    if rs_.inv:
+        raise vf.Machinery("design-level invariant failed in Signal (spec bug): %s" % rs_.inv)
+    ctx.add("states", rs_.distinct)
+    ctx.add("transitions", rs_.generated)
+    pg = os.path.join(cdir, "MC_Signal_gen.cfg")
+    with open(pg, "w") as f:
+        f.write("INIT Init\nNEXT Next\nCONSTANTS\n  Walks = %d\n  MaxEvents = 9\nINVARIANTS Emit\nCHECK_DEADLOCK FALSE\n" % (400 if thorough else 80))
+    gs = vf.run_tlc(ctx, "tcp", "MC_Signal", os.path.basename(pg), files=[pg], workers=1, seed=ctx.seed * 31 + 7, timeout=900, cont=False)
+    vf.tlc_must_finish(gs, "MC_Signal gen")
+    sh = set()
+    for line in gs.out.splitlines():
+        if line.startswith('<<"HIST", '):
+            sh.add(json.loads(line[len('<<"HIST", '):-2]))
+    sstim = [{"ev": json.loads(h)} for h in sorted(sh)]
+    sstim.append({"ev": [{"e": "bigreq", "a": 0, "b": 0}, {"e": "csm", "a": 1152, "b": 1}, {"e": "csm", "a": 0, "b": 0}, {"e": "bigreq", "a": 0, "b": 0},
+                         {"e": "aping", "a": 0, "b": 0}, {"e": "aping", "a": 0, "b": 0}, {"e": "pong", "a": 2, "b": 0}, {"e": "pong", "a": 2, "b": 0}, {"e": "pong", "a": 1, "b": 0},
+                         {"e": "ping", "a": 2, "b": 0}, {"e": "ping", "a": 1, "b": 0}, {"e": "release", "a": 0, "b": 0}, {"e": "abort", "a": 0, "b": 0}]})
+    spath = os.path.join(ctx.work, "sig-stimuli.ndjson")
+    vf.write_ndjson(spath, sstim)
+    sout = os.path.join(ctx.work, "sig-recs.ndjson")
+    vf.drv(ctx, ["c07sig", spath, sout], timeout=1200)
+    srecs = vf.read_ndjson(sout)
+    sbad, g, d = vf.judge_records(ctx, "tcp", "RecC07sig", "RecC07sig.cfg", srecs, shards=2, timeout=900)
+    ctx.add("states", d)
+    ctx.add("transitions", g)
+    ctx.add("traces_validated_against_impl", len(srecs))
+    ctx.cov["signalling_histories"] = len(srecs)
+    ctx.cov["signalling_events"] = sum(len(r["ev"]) for r in srecs)
+    for clause, idxs in sorted(sbad.items()):
+        r0 = min((srecs[i] for i in idxs), key=lambda r: len(r["ev"]))
+        ctx.drift.append({"clause": clause, "traces": len(idxs), "first": [[e["e"], e["a"], e["b"]] for e in r0["ev"]],
+                          "observed": {k: r0[k] for k in ("pongs", "done", "twice", "cbs", "reqs", "stuck")}})
+
     def mutate(r, rng):
         if r["msgs"]:
             ms = [dict(m) for m in r["msgs"]]
